@@ -718,6 +718,10 @@ func (m *Machine) concretizeBounded(t *Term, limit int, what string) int {
 
 func (m *Machine) makeSlice(fr *frame, x *ssa.MakeSlice) Value {
 	elem := x.Type().Underlying().(*types.Slice).Elem()
+	m.allocElemSize = 1
+	if sz := types.SizesFor("gc", "amd64").Sizeof(elem); sz > 0 {
+		m.allocElemSize = sz
+	}
 	lt := m.toIndex(m.get(fr, x.Len), x.Len.Type())
 	ct := m.toIndex(m.get(fr, x.Cap), x.Cap.Type())
 	var n, c int
@@ -764,9 +768,10 @@ func (m *Machine) symbolicAlloc(sz *Term, at ssa.Instruction) {
 		panic(m.rtPanic("makeslice", "makeslice: len out of range"))
 	}
 	if lim := m.Spec.AllocLimit; lim > 0 {
+		lim = lim / m.allocElemSize // the limit is in bytes
 		within := m.TT.BvCmp(OBvUle, sz, m.TT.BVConst(64, uint64(lim)))
 		if !m.Branch(within) {
-			m.reportViolation(fmt.Sprintf("allocation-beyond-limit-%d", lim), nil)
+			m.reportViolation(fmt.Sprintf("allocation-beyond-limit-%d-bytes", m.Spec.AllocLimit), nil)
 			panic(&pathEnd{endStop, "allocation beyond limit"})
 		}
 		// sizes between maxalloc and the limit are legal but not modelled: the path ends here (stated bound)
@@ -786,8 +791,9 @@ func (m *Machine) symbolicCapHint(ct *Term, n int, at ssa.Instruction) int {
 		panic(m.rtPanic("makeslice", "makeslice: cap out of range"))
 	}
 	if lim := m.Spec.AllocLimit; lim > 0 {
+		lim = lim / m.allocElemSize // the limit is in bytes
 		if !m.Branch(tt.BvCmp(OBvUle, ct, tt.BVConst(64, uint64(lim)))) {
-			m.reportViolation(fmt.Sprintf("allocation-beyond-limit-%d", lim), nil)
+			m.reportViolation(fmt.Sprintf("allocation-beyond-limit-%d-bytes", m.Spec.AllocLimit), nil)
 			panic(&pathEnd{endStop, "allocation beyond limit"})
 		}
 	} else if m.Branch(tt.BvCmp(OBvUlt, tt.BVConst(64, 1<<40), ct)) {
